@@ -15,9 +15,10 @@ from hx import catalog, hyp, mock
 from hx.run import Ctx
 from checks import c10
 
-N = int(sys.argv[1]) if len(sys.argv) > 1 else 60
+N = int(sys.argv[1]) if len(sys.argv) > 1 and sys.argv[1].isdigit() else 60
 out = {}
 WIT = {}
+SOLO = {}
 
 
 def keep_witness(key, line, rec, pol):
@@ -27,6 +28,11 @@ def keep_witness(key, line, rec, pol):
     r.pop(f'v:{key}', None)
     if k not in WIT or len(r) < len(WIT[k]):
         WIT[k] = r
+    # second witness: the one with the fewest *other* booleans set, so that the gate is reached on its own
+    # branch rather than through a "more than one box ticked" test
+    ntrue = sum(1 for v_ in r.values() if v_ is True)
+    if k not in SOLO or (ntrue, len(r)) < SOLO[k][0]:
+        SOLO[k] = ((ntrue, len(r)), r)
 
 
 YEAR = [None]
@@ -86,5 +92,8 @@ for year in catalog.YEARS:
                     res[key]['mixed'] = True
     out[str(year)] = res
 json.dump(out, sys.stdout, indent=1, sort_keys=True)
-with open('/verif/data/gate_witnesses.json', 'w') as f:
-    json.dump(WIT, f, indent=0, sort_keys=True)
+if '--solo-only' not in sys.argv:
+    with open('/verif/data/gate_witnesses.json', 'w') as f:
+        json.dump(WIT, f, indent=0, sort_keys=True)
+with open('/verif/data/gate_witnesses_solo.json', 'w') as f:
+    json.dump({k: v[1] for k, v in SOLO.items()}, f, indent=0, sort_keys=True)
